@@ -40,12 +40,15 @@ def LabOK (L L' : List String) : Prop := L' = L ∨ L' = []
 
 /-- model outcome vs spec completion type.  A block/loop/switch in otto may consume a `break t`
     for a pending enclosing label `t ∈ L` earlier than ES5's labelled statement does. -/
-def KindRel (L iter : List String) : OV → Comp → Prop
+def KindRelT (L iter : List String) : OV → Comp → Prop
   | .empty, c => c.t = .normal ∨ ∃ t, c.t = .brk t ∧ t ∈ L
   | .val _, c => c.t = .normal ∨ ∃ t, c.t = .brk t ∧ t ∈ L
-  | .brk t, c => c.t = .brk t
-  | .cont t, c => c.t = .cont t ∧ (t = "" ∨ t ∈ iter)
-  | .ret v, c => c.t = .ret ∧ c.v = some v
+  | .brk t _, c => c.t = .brk t
+  | .cont t _, c => c.t = .cont t ∧ (t = "" ∨ t ∈ iter)
+  | .ret _, c => c.t = .ret
+
+/-- … and the same completion VALUE: otto's emptyValue / value / carried value is ES5's `c.v` -/
+def KindRel (L iter : List String) (o : OV) (c : Comp) : Prop := KindRelT L iter o c ∧ ovVal o = c.v
 
 /-- same state (hence same host-call trace), same kind of completion, same thrown/returned value -/
 def Sim (L iter : List String) : MR St → SR St → Prop
@@ -55,13 +58,14 @@ def Sim (L iter : List String) : MR St → SR St → Prop
   | _, .fuel => True
   | _, _ => False
 
-/-- one pass over a loop body / switch clauses vs the completion of the body -/
-def BodyRel (labels iter : List String) : BR St → SR St → Prop
-  | .next _ L' σ, .ok c σ' => σ = σ' ∧ L' = [] ∧ c.t = .normal
-  | .brk _ L' σ, .ok c σ' => σ = σ' ∧ L' = [] ∧ ∃ t, c.t = .brk t ∧ t ∈ labels
-  | .cont _ L' σ, .ok c σ' => σ = σ' ∧ L' = [] ∧ ∃ t, c.t = .cont t ∧ t ∈ labels ∧ (t = "" ∨ t ∈ iter)
+/-- one pass over a loop body vs the completion of the body; `V` is the loop's value before the pass:
+    the value handed on is `pick c.v V` (§12.6.x "If stmt.value is not empty, let V = stmt.value") -/
+def BodyRel (labels iter : List String) (V : Option Val) : BR St → SR St → Prop
+  | .next r L' σ, .ok c σ' => σ = σ' ∧ L' = [] ∧ c.t = .normal ∧ ovVal r = pick c.v V
+  | .brk r L' σ, .ok c σ' => σ = σ' ∧ L' = [] ∧ (∃ t, c.t = .brk t ∧ t ∈ labels) ∧ ovVal r = pick c.v V
+  | .cont r L' σ, .ok c σ' => σ = σ' ∧ L' = [] ∧ (∃ t, c.t = .cont t ∧ t ∈ labels ∧ (t = "" ∨ t ∈ iter)) ∧ ovVal r = pick c.v V
   | .retv o L' σ, .ok c σ' => σ = σ' ∧ L' = [] ∧ KindRel [] iter o c ∧ isResult o = true ∧
-        (∀ t, o = .brk t → t ∉ labels) ∧ (∀ t, o = .cont t → t ∉ labels)
+        (∀ t x, o = .brk t x → t ∉ labels) ∧ (∀ t x, o = .cont t x → t ∉ labels)
   | .throw v L' σ, .throw v' σ' => v = v' ∧ σ = σ' ∧ L' = []
   | .fuel, _ => True
   | _, .fuel => True
